@@ -107,6 +107,16 @@ ConcVerdict(r) ==
         ELSE IF r.after # r.expect THEN V("C04", "a get after the overlapping merge fails or misreads: " \o r.after)
         ELSE IF r.merge # "ok" THEN V("C04", "the overlapping merge failed: " \o r.merge)
         ELSE OK
+    ELSE IF r.kind = "forced-get-during-merge" THEN
+        IF ~r.parked THEN V("drift", "the merger could not be parked at its n-th copy")
+        ELSE IF \E i \in 1..Len(r.during) : r.during[i].res \notin {r.during[i].want, "hang"}
+               THEN V("C04", "a get during a merge pass (some keys already re-pointed, the merger stopped at a later copy) fails or misreads")
+        ELSE IF \A i \in 1..Len(r.during) : r.during[i].res = "hang"
+               THEN V("C04", "every get blocks while a merge pass is in progress")
+        ELSE IF r.merge # "ok" THEN V("C04", "the merge failed: " \o r.merge)
+        ELSE IF \E i \in 1..Len(r.after) : r.after[i].res # r.after[i].want
+               THEN V("C04", "a get after the merge pass fails or misreads")
+        ELSE OK
     ELSE IF r.kind = "stress-final" THEN
         IF \E k \in 1..Len(r.final) : Bad(r.final[k].res) THEN V("C04", "after the concurrent run a get hangs or panics: reads are permanently impaired")
         ELSE OK
